@@ -837,6 +837,7 @@ func main() {
 		h.genRange()
 		h.genSeqQLRange()
 		h.genDigits()
+		h.genBcmp()
 		h.genSearch()
 		h.genSealed()
 		h.genSealedSeq()
@@ -1192,6 +1193,18 @@ func bigOf(s string) (*big.Int, bool) {
 // genDigits: numeric ranges whose ends and tokens are plain decimal strings of any length.  Besides the usual
 // channel/oracle (opRange), the property of c13_digits_range_closed/open is checked on the real code with math/big,
 // the Lean digitsNat is tied to math/big (dval), and the oracle hypothesis DigitsMono is checked on the pool.
+// genBcmp: the model's byte order (the order the sealed dictionary must be in, and the order of text ranges) against
+// bytes.Compare on mixed alphabets, prefixes of each other, NUL and high bytes.
+func (h *H) genBcmp() {
+	vals := append([]string{"", "a", "ab", "b", "\x00", "a\x00", "\x7f", "\x80", "a\x80", "a\x7f"}, mixedStems...)
+	for _, a := range vals {
+		for _, b := range vals {
+			c := bytes.Compare([]byte(a), []byte(b))
+			h.chRange.Add(fmt.Sprintf("bcmp %s %s", hx([]byte(a)), hx([]byte(b))), "ok "+map[int]string{-1: "lt", 0: "eq", 1: "gt"}[c], a != b, "bcmp")
+		}
+	}
+}
+
 func (h *H) genDigits() {
 	pool := digitPool()
 	type dv struct {
